@@ -17,7 +17,7 @@ VERIF = Path(__file__).resolve().parent.parent
 REPO = Path(os.environ.get("SMOOTHMATH_REPO", "/repo"))
 LEAN = VERIF / "lean"
 DRIVER = LEAN / ".lake" / "build" / "bin" / "driver"
-EVIDENCE = VERIF / "evidence"
+EVIDENCE = Path(os.environ.get("VERIF_EVIDENCE_DIR", VERIF / "evidence"))   # runs against seeded changes write elsewhere
 REPLAYS = VERIF / "replays"
 
 sys.path.insert(0, str(REPO / "src"))
@@ -233,17 +233,23 @@ def strip_comments(src: str) -> str:
     return re.sub(r"--.*", "", src)
 
 
+# further theorem files of a property (built, scanned and axiom-audited with the main one)
+EXTRA_PROPERTY_FILES = {"C08": ["C08odd"], "C12": ["C12obj"]}
+
+
 def lean_leg(pid: str, thorough: bool) -> dict:
     """build Properties/<pid>, grep for forbidden tokens, audit axioms of every theorem in it.
     -> dict(ok, theorems, axioms, log, broken)"""
     res: dict = {"ok": True, "broken": [], "theorems": [], "axioms": {}, "partial": []}
-    mod = f"Smooth.Properties.{pid}"
+    files = [pid] + [x for x in EXTRA_PROPERTY_FILES.get(pid, []) if (LEAN / "Smooth" / "Properties" / f"{x}.lean").exists()]
+    mods = [f"Smooth.Properties.{x}" for x in files]
+    mod = " ".join(mods)
     src_file = LEAN / "Smooth" / "Properties" / f"{pid}.lean"
     if not src_file.exists():
         res["ok"] = False
         res["broken"].append(f"{src_file} missing")
         return res
-    ok, log = lake_build([mod])
+    ok, log = lake_build(mods)
     res["build_log_tail"] = log[-1500:]
     if not ok:
         res["ok"] = False
@@ -259,9 +265,11 @@ def lean_leg(pid: str, thorough: bool) -> dict:
     if hits:
         res["ok"] = False
         res["broken"].append("forbidden tokens: " + ", ".join(hits[:10]))
-    # theorems of the property file
-    body = strip_comments(src_file.read_text())
-    names = re.findall(r"^\s*theorem\s+([A-Za-z0-9_.']+)", body, flags=re.M)
+    # theorems of the property file(s)
+    names = []
+    for x in files:
+        body = strip_comments((LEAN / "Smooth" / "Properties" / f"{x}.lean").read_text())
+        names += re.findall(r"^\s*theorem\s+([A-Za-z0-9_.']+)", body, flags=re.M)
     res["theorems"] = names
     res["partial"] = [n for n in names if n.endswith("_partial")]
     if not names:
@@ -269,7 +277,7 @@ def lean_leg(pid: str, thorough: bool) -> dict:
         res["broken"].append("no theorem in property file")
         return res
     audit = LEAN / ".lake" / f"audit_{pid}.lean"
-    audit.write_text(f"import {mod}\nopen Smooth\n" + "".join(f"#print axioms {n}\n" for n in names))
+    audit.write_text("".join(f"import {m}\n" for m in mods) + "open Smooth\n" + "".join(f"#print axioms {n}\n" for n in names))
     r = subprocess.run(["lake", "env", "lean", str(audit)], cwd=LEAN, capture_output=True, text=True)
     out = r.stdout + r.stderr
     for n in names:
@@ -285,7 +293,7 @@ def lean_leg(pid: str, thorough: bool) -> dict:
             res["ok"] = False
             res["broken"].append(f"theorem {n} depends on {bad}")
     if thorough:
-        r = subprocess.run(["lake", "env", "leanchecker", mod], cwd=LEAN, capture_output=True, text=True)
+        r = subprocess.run(["lake", "env", "leanchecker"] + mods, cwd=LEAN, capture_output=True, text=True)
         res["leanchecker"] = "ok" if r.returncode == 0 else (r.stdout + r.stderr)[-500:]
         if r.returncode != 0:
             res["ok"] = False
@@ -304,7 +312,7 @@ def write_evidence(rep: Report, rule: str, trusted: list[str], assumptions: list
     cov = {
         "obligations": max(nthm, 1),
         "discharged": discharged if nthm else 0,
-        "checker_cmd": f"cd lean && lake build Smooth.Properties.{rep.pid} && lake env lean .lake/audit_{rep.pid}.lean  # #print axioms of every theorem",
+        "checker_cmd": "cd lean && lake build " + " ".join(f"Smooth.Properties.{x}" for x in [rep.pid] + EXTRA_PROPERTY_FILES.get(rep.pid, [])) + f" && lake env lean .lake/audit_{rep.pid}.lean  # #print axioms of every theorem",
         "trusted_base": trusted,
         "theorems": lean.get("theorems", []),
         "partial_theorems": lean.get("partial", []),
